@@ -1,53 +1,49 @@
 /* C04/C17: resizable-sequence core of array.c under contract (dfcc). See seq_common.h for wf_array. */
 #include "seq_common.h"
 
-#define A_ELEM(a, i) (((uint64_t *)(a)->data)[i])
+#define GHOST_IN(a) (g_idx >= 0 && g_idx < (a)->count)
+#define A_PRE(array) \
+  __CPROVER_requires(WF_ARRAY(array)) \
+  __CPROVER_requires(g_oldcount == array->count && g_oldcap == array->capacity) \
+  __CPROVER_requires(GHOST_IN(array) ==> A_ELEM(array, g_idx) == g_val)
+#define A_FRAME(array) \
+  __CPROVER_assigns(array->data, array->capacity, array->count, janet_vm.next_collection; array->capacity > 0: __CPROVER_object_whole(array->data)) \
+  __CPROVER_frees(array->data)
 
 /* janet_array_ensure(array, capacity, growth), growth >= 1 (every in-tree caller passes 1 or 2; array/ensure
- * passes a user value - see unit cfun.array.ensure): afterwards the array can hold `capacity` elements, the
+ * passes a user value - see unit seq.cfun.array.ensure): afterwards the array can hold `capacity` elements, the
  * invariant holds, count is unchanged and every element below count is unchanged (ghost index). */
 void janet_array_ensure_c(JanetArray *array, int32_t capacity, int32_t growth)
-__CPROVER_requires(__CPROVER_is_fresh(array, sizeof(*array)) && WF_ARRAY_REQ(array))
+A_PRE(array)
 __CPROVER_requires(growth >= 1)
-__CPROVER_requires(g_oldcap == array->capacity)
-__CPROVER_requires(g_re_elem == ((g_idx >= 0 && g_idx < array->count) ? 1 : 0))
-__CPROVER_requires((g_idx >= 0 && g_idx < array->count) ==> A_ELEM(array, g_idx) == g_val)
 __CPROVER_assigns(array->data, array->capacity, janet_vm.next_collection)
 __CPROVER_frees(array->data)
-__CPROVER_ensures(WF_ARRAY_ENS(array))
-__CPROVER_ensures(array->capacity >= capacity && array->capacity >= __CPROVER_old(array->capacity))
-__CPROVER_ensures(array->count == __CPROVER_old(array->count))
-__CPROVER_ensures(capacity <= __CPROVER_old(array->capacity) ==> array->capacity == __CPROVER_old(array->capacity))
-__CPROVER_ensures((g_idx >= 0 && g_idx < array->count) ==> A_ELEM(array, g_idx) == g_val)
+__CPROVER_ensures(WF_ARRAY(array))
+__CPROVER_ensures(array->capacity >= capacity && array->capacity >= g_oldcap)
+__CPROVER_ensures(array->count == g_oldcount)
+__CPROVER_ensures(capacity <= g_oldcap ==> array->capacity == g_oldcap)
+__CPROVER_ensures(GHOST_IN(array) ==> A_ELEM(array, g_idx) == g_val)
 ;
-
 void h_array_ensure(void) {
-  JanetArray *a; int32_t c = nd_i32(), g = nd_i32();
+  JanetArray *a = mk_array(); int32_t c = nd_i32(), g = nd_i32();
   janet_array_ensure(a, c, g);
   REACH("janet_array_ensure returns");
   if (c > g_oldcap) REACH("janet_array_ensure returns after growing");
 }
 
-#define NIL_BITS 0xFFF8800000000001ULL      /* janet_wrap_nil().u64, asserted in h_array_setcount */
-
 /* janet_array_setcount(array, count): negative count is ignored; otherwise the length becomes count, elements
- * below min(old,new) are unchanged, every new element is nil (ghost index covers both ranges). */
+ * below min(old,new) are unchanged, every new element is nil (the ghost index covers both ranges). */
 void janet_array_setcount_c(JanetArray *array, int32_t count)
-__CPROVER_requires(__CPROVER_is_fresh(array, sizeof(*array)) && WF_ARRAY_REQ(array))
-__CPROVER_requires(g_oldcount == array->count)
-__CPROVER_requires(g_re_elem == ((g_idx >= 0 && g_idx < array->count) ? 1 : 0))
-__CPROVER_requires((g_idx >= 0 && g_idx < array->count) ==> A_ELEM(array, g_idx) == g_val)
-__CPROVER_assigns(array->data, array->capacity, array->count, janet_vm.next_collection; array->capacity > 0: __CPROVER_object_whole(array->data))
-__CPROVER_frees(array->data)
-__CPROVER_ensures(WF_ARRAY_ENS(array))
+A_PRE(array)
+A_FRAME(array)
+__CPROVER_ensures(WF_ARRAY(array))
 __CPROVER_ensures(array->count == (count < 0 ? g_oldcount : count))
 __CPROVER_ensures((g_idx >= 0 && g_idx < g_oldcount && g_idx < array->count) ==> A_ELEM(array, g_idx) == g_val)
 __CPROVER_ensures((g_idx >= g_oldcount && g_idx < array->count) ==> A_ELEM(array, g_idx) == NIL_BITS)
 ;
-
 void h_array_setcount(void) {
-  JanetArray *a; int32_t c = nd_i32();
-  __CPROVER_assert(janet_wrap_nil().u64 == NIL_BITS, "nil bit pattern used in the contracts");
+  JanetArray *a = mk_array(); int32_t c = nd_i32();
+  SEQ_CHECK_NIL();
   janet_array_setcount(a, c);
   REACH("janet_array_setcount returns");
   if (c > g_oldcount) REACH("janet_array_setcount returns after extending");
@@ -55,42 +51,35 @@ void h_array_setcount(void) {
 
 /* janet_array_push: returns normally only if count < INT32_MAX; appends x; prefix unchanged */
 void janet_array_push_c(JanetArray *array, Janet x)
-__CPROVER_requires(__CPROVER_is_fresh(array, sizeof(*array)) && WF_ARRAY_REQ(array))
-__CPROVER_requires(g_oldcount == array->count)
-__CPROVER_requires(g_re_elem == ((g_idx >= 0 && g_idx < array->count) ? 1 : 0))
-__CPROVER_requires((g_idx >= 0 && g_idx < array->count) ==> A_ELEM(array, g_idx) == g_val)
-__CPROVER_assigns(array->data, array->capacity, array->count, janet_vm.next_collection; array->capacity > 0: __CPROVER_object_whole(array->data))
-__CPROVER_frees(array->data)
-__CPROVER_ensures(WF_ARRAY_ENS(array))
+A_PRE(array)
+A_FRAME(array)
+__CPROVER_ensures(WF_ARRAY(array))
 __CPROVER_ensures(g_oldcount < INT32_MAX && array->count == g_oldcount + 1)
 __CPROVER_ensures(A_ELEM(array, g_oldcount) == x.u64)
 __CPROVER_ensures((g_idx >= 0 && g_idx < g_oldcount) ==> A_ELEM(array, g_idx) == g_val)
 ;
-
 void h_array_push(void) {
-  JanetArray *a; Janet x; x.u64 = nd_u64();
+  JanetArray *a = mk_array(); Janet x; x.u64 = nd_u64();
   janet_array_push(a, x);
   REACH("janet_array_push returns");
+  if (a->capacity != g_oldcap) REACH("janet_array_push returns after growing");
 }
 
-/* janet_array_pop / peek: last element or nil when empty; pop shortens by one, nothing else changes */
+/* janet_array_pop / peek: last element, or nil when empty; pop shortens by one, nothing else changes */
 Janet janet_array_pop_c(JanetArray *array)
-__CPROVER_requires(__CPROVER_is_fresh(array, sizeof(*array)) && WF_ARRAY_REQ(array))
-__CPROVER_requires(g_oldcount == array->count)
-__CPROVER_requires((g_idx >= 0 && g_idx < array->count) ==> A_ELEM(array, g_idx) == g_val)
+A_PRE(array)
 __CPROVER_assigns(array->count)
-__CPROVER_ensures(WF_ARRAY_ENS(array))
+__CPROVER_ensures(WF_ARRAY(array) && array->capacity == g_oldcap)
 __CPROVER_ensures(g_oldcount == 0 ==> (array->count == 0 && __CPROVER_return_value.u64 == NIL_BITS))
 __CPROVER_ensures(g_oldcount > 0 ==> (array->count == g_oldcount - 1 && __CPROVER_return_value.u64 == A_ELEM(array, g_oldcount - 1)))
 __CPROVER_ensures((g_idx >= 0 && g_idx < g_oldcount) ==> A_ELEM(array, g_idx) == g_val)
 ;
 Janet janet_array_peek_c(JanetArray *array)
-__CPROVER_requires(__CPROVER_is_fresh(array, sizeof(*array)) && WF_ARRAY_REQ(array))
-__CPROVER_requires(g_oldcount == array->count)
+A_PRE(array)
 __CPROVER_assigns()
-__CPROVER_ensures(WF_ARRAY_ENS(array) && array->count == g_oldcount)
+__CPROVER_ensures(WF_ARRAY(array) && array->count == g_oldcount && array->capacity == g_oldcap)
 __CPROVER_ensures(g_oldcount == 0 ==> __CPROVER_return_value.u64 == NIL_BITS)
 __CPROVER_ensures(g_oldcount > 0 ==> __CPROVER_return_value.u64 == A_ELEM(array, g_oldcount - 1))
 ;
-void h_array_pop(void) { JanetArray *a; Janet r = janet_array_pop(a); REACH("janet_array_pop returns"); }
-void h_array_peek(void) { JanetArray *a; Janet r = janet_array_peek(a); REACH("janet_array_peek returns"); }
+void h_array_pop(void) { JanetArray *a = mk_array(); SEQ_CHECK_NIL(); Janet r = janet_array_pop(a); REACH("janet_array_pop returns"); }
+void h_array_peek(void) { JanetArray *a = mk_array(); SEQ_CHECK_NIL(); Janet r = janet_array_peek(a); REACH("janet_array_peek returns"); }
